@@ -257,3 +257,16 @@ pub(crate) fn with_document_scope<R>(f: impl FnOnce() -> R) -> R {
     drop(guard);
     result
 }
+
+/// Verification hook: sizes of the thread-local anchor state (see `verif_hooks`).
+#[cfg(serde_saphyr_verif)]
+pub(crate) fn verif_snapshot() -> (usize, usize, usize) {
+    STATE.with(|state| {
+        let s = state.borrow();
+        let stored = s.store.rc.len()
+            + s.store.arc.len()
+            + s.store.rc_recursive.len()
+            + s.store.arc_recursive.len();
+        (s.stack.len(), stored, s.in_progress.len())
+    })
+}
